@@ -2248,7 +2248,10 @@ def _lt(token: TokenT, left: object, right: object) -> bool:
 
 def _contains(token: TokenT, left: object, right: object) -> bool:
     if isinstance(left, str):
-        return str(right) in left
+        if right is None:
+            # No string contains nil. Python would look for "None".
+            return False
+        return _to_liquid_string(right) in left
     if isinstance(left, Collection):
         try:
             return right in left
